@@ -86,6 +86,8 @@ class FilterGen:
     def basic(self, cands, depth):
         rng = self.rng
         r = rng.random()
+        if self.ext and rng.random() < 0.35:
+            return self.ext_basic(cands, depth)
         if r < 0.30:
             return ["test", self.filter_query(cands, depth)]
         if r < 0.85 or not self.funcs:
@@ -132,6 +134,70 @@ class FilterGen:
                     nxt.append(v[str(sel[1])])
             cur = nxt
         return segs
+
+    # ---- documented extensions (docs/syntax.md): membership, =~, #, _, ^, undefined, list literals
+    def ext_basic(self, cands, depth):
+        rng = self.rng
+        r = rng.random()
+        sc = _scalars_in(cands)
+        if r < 0.25:
+            # membership
+            needle = self.ext_comparable(cands, depth)
+            rr = rng.random()
+            if rr < 0.4:
+                items = [rng.choice(sc or LIT_POOL) for _ in range(rng.randint(0, 4))]
+                items = [x if not isinstance(x, (dict, list)) else 1 for x in items]
+                hay = ["list", items]
+            else:
+                hay = self.ext_query(cands, depth, singular=True)
+            if rng.random() < 0.5:
+                return ["in", needle, hay]
+            return ["has", hay, needle]
+        if r < 0.40:
+            strs = [x for x in sc if isinstance(x, str) and "\n" not in x and "\r" not in x]
+            pat = gen_pattern(rng, strs).replace("/", ".") or "a"
+            flags = "".join(sorted(rng.sample("aims", rng.choice([0, 0, 1, 1, 2, 4]))))
+            subj = self.ext_query(cands, depth, singular=True) if rng.random() < 0.85 else ["lit", rng.choice(strs or ["abc"])]
+            return ["re", subj, pat, flags]
+        if r < 0.60:
+            # current key
+            v = rng.choice(["a", "b", "0", 0, 1, 2, "1", ""] + [x for x in sc if isinstance(x, (str, int)) and not isinstance(x, bool)][:3])
+            op = rng.choice(OPS + ["==", "=="])
+            e = ["cmp", op, ["key"], ["lit", v]]
+            return e if rng.random() < 0.7 else ["cmp", op, ["lit", v], ["key"]]
+        if r < 0.80:
+            q = self.ext_query(cands, depth, singular=True)
+            op = rng.choice(["==", "!="])
+            return ["cmp", op, q, ["undef"]] if rng.random() < 0.6 else ["cmp", op, ["undef"], q]
+        return ["test", self.ext_query(cands, depth)]
+
+    def ext_query(self, cands, depth, singular=False):
+        """like filter_query but may be rooted at the filter context `_` or the fake root `^`"""
+        rng = self.rng
+        r = rng.random()
+        if r < 0.3 and self.ctx_data is not None:
+            root, start = "_", [self.ctx_data]
+        elif r < 0.4:
+            root, start = "^", [[self.root]]
+        else:
+            return self.filter_query(cands, depth, singular=singular)
+        n = rng.choice([1, 1, 2, 2, 3])
+        if singular:
+            return ["q", root, self.singular_segments(start, n)]
+        segs, _ = Q.gen_segments(rng, self.root, nmax=n, kinds=("n", "i", "s", "w"), desc_p=0.1, start=start)
+        return ["q", root, segs]
+
+    def ext_comparable(self, cands, depth):
+        rng = self.rng
+        r = rng.random()
+        if r < 0.35:
+            return self.ext_query(cands, depth, singular=True)
+        if r < 0.5:
+            return ["key"]
+        v = self.literal_like(cands)
+        if isinstance(v, (dict, list)):
+            v = "a"
+        return ["lit", v]
 
     # ---- comparisons
     def literal_like(self, cands):
